@@ -12,6 +12,9 @@ What a contract can say here: the backend's svd / eigh / qr are dependencies (LA
   V) is non-negative afterwards, for all values of non-degenerate factors.
 * make_svd_non_negative (E1-dense, z3, enumerated small shapes): both factors entrywise non-negative and every division defined, for any triplet with
   non-negative singular values and non-zero vectors (data-dependent branches are forked); the NNDSVDa fill on the one-component instances.
+* symeig_svd (eigh, flip by contract): Gram matrix handed to eigh, S = sqrt(clip(w)), U diag(S) V = M before the reversal, component-axis reversals, leading slices.
+* randomized_svd (randomized_range_finder, truncated_svd by contract): arguments of both callees, composition U = Q U' / V = V' Qᵀ, product = projection of the
+  matrix on the sampled range, orthonormal factors; real and complex data.
 * Accuracy against numpy.linalg.svd for every method, shape class and n_eigenvecs, symeig / randomized orthonormality, NNDSVD approximation quality: bounded
   native stand-in - labelled bounded, never counted as proved.
 """
@@ -20,7 +23,7 @@ import warnings
 
 import numpy as np
 
-from ..oblig import GOb
+from ..oblig import GOb, _sym_equal
 from ..oblig_dense import DOb
 from ..symint import atom, SInt, current_ctx
 from ..iterative import stubbed, real_dtype
@@ -36,7 +39,8 @@ TRUSTED_BASE = [
     "numpy primitive contracts; CPython",
 ]
 ASSUMPTIONS = [
-    "symeig_svd and randomized_svd bodies (eigh / qr / clipped square roots) are covered only by the bounded stand-in",
+    "eigh contract (A3): ascending real eigenvalues, square orthogonal eigenvector matrix; flip = reversal of one axis; lemma: reversing U's columns, S and V's rows together keeps U diag(S) V and turns ascending into non-increasing",
+    "randomized_range_finder by contract (documented shape, orthonormal columns; 'captures the range when n_dims covers the rank' is Halko et al., not proved): its body (random draw + QR power iterations) and the clipped / rank-deficient case of symeig_svd are covered only by the bounded stand-in",
     "svd_flip at enumerated shapes up to 3x2 / 2x3 with 1-2 components, factors without a zero deciding column (true of singular vectors)",
     "make_svd_non_negative at enumerated shapes up to 3x2 / 2x3 (3x3 thorough) with 1-2 (3) components; singular vectors enter as 'not zero', singular values as non-negative; the NNDSVDa fill only with one component",
 ]
@@ -230,6 +234,168 @@ def obligations(tier):
                 return out
             obs.append(GOb(PID, f"{PID}/tenalg.svd:svd_interface/dispatch ∧ arguments ∧ options[method={method},{tag}]", "tensorly.tenalg.svd:svd_interface", setup, call, post, tenalg="core",
                            instance=dict(method=method, **opts), clause="dispatch, argument passing, options, mask imputation", forall=["matrix sizes", "entries"], enumerated=["method", "options"]))
+
+    # ====================================================================== randomized_svd: the wrapper logic against the contracts of its callees
+    # randomized_range_finder enters by contract (Q with n_dims orthonormal columns spanning the sampled range), truncated_svd by the contract proved above
+    # (orthonormal U columns / V rows; U diag(S) V = its argument when n_eigenvecs covers the rank of the REDUCED matrix - registered as a hypothesis).
+    rs_cases = {"tall, k <= n1 (direct)": ("direct", lambda I: [n1 < n0, I["k"] <= n1]),
+                "tall, n1 < k <= n0 (transposed)": ("transposed", lambda I: [n1 < n0, n1 < I["k"], I["k"] <= n0]),
+                "wide, k < n0 (transposed)": ("transposed", lambda I: [n0 < n1, I["k"] < n0]),
+                "wide, n0 <= k <= n1 (direct)": ("direct", lambda I: [n0 < n1, n0 <= I["k"], I["k"] <= n1]),
+                "square, k <= n0 (direct)": ("direct", lambda I: [n0 <= n1, n1 <= n0, I["k"] <= n0]),
+                "tall, n_eigenvecs None (transposed)": ("transposed", lambda I: [n1 < n0])}
+    for case, (branch, rs_pre) in rs_cases.items():
+        for over in ((5, 0) if tier == "quick" else (5, 0, 2)):
+            if over != 5 and "k < n0" in case:
+                continue   # (with no oversampling k < min(min_dim, n_dims) is false and the wide case goes direct: covered by its own line below)
+            for dt in (("float64", "complex128") if over == 5 and (case.startswith("tall, k <= n1") or "k < n0" in case) else ("float64",)):
+                def setup(S, dt=dt):
+                    return dict(_S=S, M=S.input("M", [n0, n1], dt), k=k)
+                def call(I, case=case, over=over):
+                    S = I["_S"]
+                    rec_rf, rec_ts = [], []
+                    def range_finder(A, n_dims, n_iter=2, random_state=None):
+                        rec_rf.append(dict(A=A, n_dims=n_dims, n_iter=n_iter, random_state=random_state))
+                        # contract (documented, and what reduced QR gives): Q of shape (A.shape[0], min(n_dims, A.shape[0], A.shape[1])) with orthonormal columns
+                        if S.name == "sym":
+                            Q = G.opaque_tensor("RFQ", [A.shape[0], min(n_dims, A.shape[0], A.shape[1])], A.dtype, ortho_axis=0)
+                        else:
+                            Q = S.record("RFQ", np.linalg.qr(np.random.RandomState(3).standard_normal((A.shape[0], min(int(n_dims), A.shape[0], A.shape[1]))))[0])
+                        rec_rf[-1]["Q"] = Q
+                        return Q
+                    def tsvd(matrix, n_eigenvecs=None, **kw):
+                        rec_ts.append(dict(matrix=matrix, n_eigenvecs=n_eigenvecs, kw=dict(kw)))
+                        # contract of truncated_svd (its own obligations above): shapes (a, min(k, a)), (min(k, a, b),), (min(k, b), b); within min(shape) the factors are
+                        # orthonormal and - hypothesis 'k covers the rank of the reduced matrix' - their product is the argument
+                        if S.name == "sym":
+                            a, b = matrix.shape
+                            kq = n_eigenvecs
+                            small = ent(SInt.lift(kq) <= a) and ent(SInt.lift(kq) <= b)
+                            rec_ts[-1]["within min(shape)"] = small
+                            out = (G.opaque_tensor("TSU", [a, min(kq, a)], matrix.dtype, ortho_axis=0 if small else None), G.opaque_tensor("TSS", [min(kq, a, b)], real_dtype(matrix), nonneg=True),
+                                   G.opaque_tensor("TSV", [min(kq, b), b], matrix.dtype, ortho_axis=1 if small else None))
+                            if small:
+                                G.register_factorisation(tuple(G.name_of(o) for o in out), matrix)
+                        else:
+                            rec_ts[-1]["within min(shape)"] = int(n_eigenvecs) <= min(matrix.shape)
+                            U, s_, V = np.linalg.svd(matrix, full_matrices=int(n_eigenvecs) > min(matrix.shape))
+                            out = tuple(S.record(nm, o) for nm, o in zip(("TSU", "TSS", "TSV"), (U[:, :n_eigenvecs], s_[:n_eigenvecs], V[:n_eigenvecs])))
+                        rec_ts[-1]["out"] = out
+                        return out
+                    with stubbed(sv, randomized_range_finder=range_finder, truncated_svd=tsvd):
+                        out = sv.randomized_svd(I["M"], n_eigenvecs=None if "None" in case else I["k"], n_oversamples=over, n_iter=3, random_state="the caller's generator")
+                    return dict(out=out, rf=rec_rf, ts=rec_ts)
+                def post(S, I, r, case=case, branch=branch, over=over):
+                    a, b = S.shape(I["M"])
+                    M = I["M"]
+                    U, s_, V = r["out"]
+                    out = [("the range finder and the inner SVD each run once", [len(r["rf"]), len(r["ts"])], [1, 1])]
+                    rf, ts = r["rf"][0], r["ts"][0]
+                    Q = rf["Q"]
+                    kk = a if "None" in case else I["k"]          # (svd_checks' clamp, proved above: None -> max(shape))
+                    if S.name == "sym":
+                        dims_ok = int(ent(SInt.lift(rf["n_dims"]) == min(kk + over, max(a, b))))     # (min / max decide within the path, forking it where the sizes leave it open)
+                    else:
+                        dims_ok = int(int(rf["n_dims"]) == min(int(kk) + over, max(a, b)))
+                    out.append(("the range finder is asked for min(n_eigenvecs + n_oversamples, max(shape)) directions", dims_ok, 1))
+                    out.append(("n_iter and random_state are handed to the range finder unchanged", [rf["n_iter"], rf["random_state"]], [3, "the caller's generator"]))
+                    out.append(("the inner SVD is asked for the (clamped) n_eigenvecs", int(ent(SInt.lift(ts["n_eigenvecs"]) == kk)) if S.name == "sym" else int(int(ts["n_eigenvecs"]) == int(kk)), 1))
+                    Ui, si, Vi = ts["out"]
+                    # which of the two (equally valid) arrangements ran is read off the range finder's argument, not prescribed: the clauses below then demand
+                    # that everything downstream is consistent with it
+                    if S.name == "sym":
+                        direct = _sym_equal(rf["A"], M)[0]
+                    else:
+                        direct = np.shape(rf["A"]) == np.shape(M) and bool(np.allclose(rf["A"], M)) and not (a == b and np.allclose(rf["A"], np.transpose(M)) and branch != "direct")
+                    if direct:
+                        out += [("the range of the matrix itself is sampled", rf["A"], M),
+                                ("the inner SVD receives Qᴴ M", ts["matrix"], S.einsum("iq,ij->qj", S.conj(Q), M)),
+                                ("U = Q U', S and V are the inner SVD's", [U, s_, V], [S.einsum("iq,qr->ir", Q, Ui), si, Vi]),
+                                ] + ([("the product is the projection of the matrix on the sampled range: U diag(S) V = Q Qᴴ M (inner SVD exact)",
+                                 S.einsum("ir,r,rj->ij", U, s_, V), S.einsum("iq,lq,lj->ij", Q, S.conj(Q), M)),
+                                ("U has orthonormal columns", S.einsum("ia,ib->ab", S.conj(U), U), S.eye(S.shape(U)[1])),
+                                ("V has orthonormal rows", S.einsum("aj,bj->ab", V, S.conj(V)), S.eye(S.shape(V)[0]))] if ts["within min(shape)"] else [])
+                    else:
+                        out += [("the range of the transposed matrix is sampled", rf["A"], S.einsum("ij->ji", M)),
+                                ("the inner SVD receives (Qᴴ Mᵀ)ᵀ", ts["matrix"], S.einsum("jq,ij->iq", S.conj(Q), M)),
+                                ("V = V' Qᵀ, U and S are the inner SVD's", [U, s_, V], [Ui, si, S.einsum("rq,jq->rj", Vi, Q)]),
+                                ] + ([("the product is the matrix projected on the sampled row space: U diag(S) V = M conj(Q) Qᵀ (inner SVD exact)",
+                                 S.einsum("ir,r,rj->ij", U, s_, V), S.einsum("il,lq,jq->ij", M, S.conj(Q), Q)),
+                                ("U has orthonormal columns", S.einsum("ia,ib->ab", S.conj(U), U), S.eye(S.shape(U)[1])),
+                                ("V has orthonormal rows", S.einsum("aj,bj->ab", V, S.conj(V)), S.eye(S.shape(V)[0]))] if ts["within min(shape)"] else [])
+                    return out
+                obs.append(GOb(PID, f"{PID}/tenalg.svd:randomized_svd/range finder and inner SVD arguments ∧ composition ∧ orthonormality[{case}, n_oversamples={over}, {dt}]", "tensorly.tenalg.svd:randomized_svd", setup, call, post,
+                               tenalg="core", instance=dict(case=case, n_oversamples=over, dtype=dt), clause="what the range finder and the inner SVD receive; U diag(S) V = projection of the matrix on the sampled range; orthonormal factors",
+                               forall=["matrix sizes", "n_eigenvecs", "entries"], enumerated=["case", "n_oversamples"], assumptions=rs_pre))
+
+    # ====================================================================== symeig_svd: the wrapper logic against the contracts of eigh and flip
+    # eigh enters by contract (A3: ascending real eigenvalues w, square orthogonal Q with Q diag(w) Qᵀ = its symmetric argument), flip as the reversal of one axis
+    # (numpy primitive contract). Proved: eigh receives a Gram matrix of the data; BEFORE the reversal the triple already multiplies back to the matrix
+    # (U diag(S) V = M, using only Q Qᵀ = I and S > 0 after the clip - no appeal to the eigen-equation); S = sqrt(clip(w, eps)); the three reversals act on the
+    # component axis of U, S and V (so the product is kept and ascending eigenvalues become non-increasing singular values); the outputs are the documented
+    # leading slices of the reversed triple.
+    se_cases = {"tall, k <= n1": lambda I: [n1 < n0, I["k"] <= n1], "tall, n1 < k <= n0": lambda I: [n1 < n0, n1 < I["k"], I["k"] <= n0],
+                "wide or square, k <= n0": lambda I: [n0 <= n1, I["k"] <= n0], "wide, n0 < k <= n1": lambda I: [n0 < n1, n0 < I["k"], I["k"] <= n1],
+                "tall, n_eigenvecs None": lambda I: [n1 < n0]}
+    for case, se_pre in se_cases.items():
+        def setup(S):
+            return dict(_S=S, M=S.input("M", [n0, n1]), k=k)
+        def call(I, case=case):
+            S = I["_S"]
+            rec_e, rec_f = [], []
+            def eigh(gram):
+                rec_e.append(dict(gram=gram))
+                if S.name == "sym":
+                    n_ = gram.shape[0]
+                    w = G.opaque_tensor("EIGW", [n_], real_dtype(gram), nonneg=True)
+                    Q = G.opaque_tensor("EIGQ", [n_, n_], gram.dtype, ortho_axis=2)
+                else:
+                    w, Q = np.linalg.eigh(gram)
+                    w, Q = S.record("EIGW", w), S.record("EIGQ", Q)
+                rec_e[-1].update(w=w, Q=Q)
+                return w, Q
+            def flip(t, axis=None):
+                rec_f.append(dict(t=t, axis=axis))
+                out = G.opaque_tensor("FLIP", list(t.shape), t.dtype) if S.name == "sym" else S.record("FLIP", np.flip(t, axis=axis))
+                rec_f[-1]["out"] = out
+                return out
+            with stubbed(tl, eigh=eigh, flip=flip):
+                out = sv.symeig_svd(I["M"], n_eigenvecs=None if "None" in case else I["k"], extra_keyword="absorbed")
+            if S.name == "sym" and rec_e:
+                rec_e[0]["S_spec"] = tl.sqrt(tl.clip(rec_e[0]["w"], tl.eps(rec_e[0]["w"].dtype)))
+            elif rec_e:
+                rec_e[0]["S_spec"] = np.sqrt(np.clip(rec_e[0]["w"], np.finfo(rec_e[0]["w"].dtype).eps, None))
+            return dict(out=out, e=rec_e, f=rec_f)
+        def post(S, I, r, case=case):
+            a, b = S.shape(I["M"])
+            M = I["M"]
+            U, s_, V = r["out"]
+            kk = a if "None" in case else I["k"]          # (svd_checks' clamp, proved above: None -> max(shape); here the matrix is tall)
+            out = [("eigh runs once and there are exactly three reversals", [len(r["e"]), len(r["f"])], [1, 3])]
+            if len(r["e"]) != 1 or len(r["f"]) != 3:
+                return out
+            e, (fU, fS, fV) = r["e"][0], r["f"]
+            Q, Ssp = e["Q"], e["S_spec"]
+            left_gram = S.einsum("ij,lj->il", M, M)
+            if S.name == "sym":
+                left = _sym_equal(e["gram"], left_gram)[0]
+            else:
+                left = np.shape(e["gram"]) == np.shape(left_gram) and bool(np.allclose(e["gram"], left_gram)) and not (a <= b)
+            # which Gram matrix is decomposed is read off the call, not prescribed; everything downstream must be consistent with it
+            if left:
+                out += [("eigh receives the Gram matrix M Mᵀ", e["gram"], left_gram),
+                        ("before the reversal: U = Q, S = sqrt(clip(w, eps)), V = diag(1/S) Qᵀ M", [fU["t"], fS["t"], fV["t"]], [Q, Ssp, S.einsum("iq,q,ij->qj", Q, 1 / Ssp, M)])]
+            else:
+                out += [("eigh receives the Gram matrix Mᵀ M", e["gram"], S.einsum("ij,il->jl", M, M)),
+                        ("before the reversal: V = Qᵀ, S = sqrt(clip(w, eps)), U = M Q diag(1/S)", [fU["t"], fS["t"], fV["t"]], [S.einsum("ij,jq,q->iq", M, Q, 1 / Ssp), Ssp, S.einsum("jq->qj", Q)])]
+            out += [("before the reversal the triple multiplies back to the matrix: U diag(S) V = M (Q orthogonal, S > 0 after the clip)", S.einsum("iq,q,qj->ij", fU["t"], fS["t"], fV["t"]), M),
+                    ("the three reversals act on the component axis: columns of U, S, rows of V", [fU["axis"], fS["axis"] in (None, 0, -1), fV["axis"]], [1, True, 0]),
+                    ("documented leading slices of the reversed triple: U[:, :min(n0, k)], S[:min(n0, n1, k)], V[:min(n1, k)]", [U, s_, V],
+                     [S.prefix(fU["out"], 1, min(a, kk)), S.prefix(fS["out"], 0, min(a, b, kk)), S.prefix(fV["out"], 0, min(b, kk))])]
+            return out
+        obs.append(GOb(PID, f"{PID}/tenalg.svd:symeig_svd/Gram matrix to eigh ∧ U diag(S) V = M before the reversal ∧ component-axis reversals ∧ leading slices[{case}]", "tensorly.tenalg.svd:symeig_svd", setup, call, post,
+                       tenalg="core", instance=dict(case=case), clause="eigh receives a Gram matrix of the data; S = sqrt(clip(eigenvalues)); the triple multiplies back to the matrix; reversal of the component axis; leading slices",
+                       forall=["matrix sizes", "n_eigenvecs", "entries"], enumerated=["case"], assumptions=se_pre))
 
     # ====================================================================== svd_flip (E1-dense): product unchanged, deciding entry non-negative
     shapes = [(2, 1, 2), (2, 2, 2), (3, 2, 2), (2, 2, 3)] + ([(3, 1, 3), (4, 1, 2), (2, 1, 4)] if tier == "thorough" else [])   # (3x3 factors exceed the per-obligation budget: argmax forks x sign cases)   # (rows of U, components, columns of V)
